@@ -43,12 +43,14 @@ def run(ck):
     ck.prove(["AsModel.Theorems.C14"])
     ck.build_harness("inproc")
     res = t2.run(ck)
-    mm = t2.record(ck, res, ("nodes", "body", "validity", "status", "locations"), "node definitions, node references and syntactic validity")
+    mm = t2.record(ck, res, ("nodes", "body", "validity", "status", "locations", "wellformed"), "node definitions, node references and syntactic validity")
     for m in mm:
+        if m["part"] == "wellformed":
+            ck.report("node-refs:" + hexs(m["text"])[:40], "the generated code refers to a pattern-tree node that is not defined exactly once", dict(invocation=m["text"], detail=m["detail"]))
         if m["part"] == "validity":
             ck.report("invalid-rust:" + hexs(m["text"])[:40], "the macro accepts the invocation but the generated code is not syntactically valid Rust", dict(invocation=m["text"], detail=m["detail"]))
     histories(ck)
-    others = [m for m in mm if m["part"] != "validity"]
+    others = [m for m in mm if m["part"] not in ("validity", "wellformed")]
     if others and not [v for v in ck.violations if not v["no_input"]]:
         ck.report("corr:T2", "the model of the node tree / code generator no longer matches the real expansion (%d inputs differ)" % len(others),
                   dict(broken="correspondence T2", theorems=["C14_ids_nodup", "C14_refs_defined", "C14_root_node"], first=others[:3]), no_input=True)
